@@ -11,8 +11,8 @@ Open Scope list_scope.
 Open Scope N_scope.
 
 (* ---------------------------------------------------------------------------------------------- *)
-(* the generated facts are the ones the proofs are about *)
-Theorem C20_generated_facts : gen_cfg = pinned_cfg.
+(* the generated facts are the ones the proofs are about (whichever error handler the CSV file is opened with) *)
+Theorem C20_generated_facts : gen_cfg = set_csv_se pinned_cfg (g_csv_se gen_cfg).
 Proof. reflexivity. Qed.
 Theorem C20_generated_normalize :
   gen_ncfg = pinned_ncfg
@@ -166,7 +166,7 @@ Proof. reflexivity. Qed.
 (* ---------------------------------------------------------------------------------------------- *)
 (* totality: no writer fails on records whose text the writer's encoder accepts ... *)
 Theorem C20_total_partial : forall o rs, keys_agree gen_cfg o rs ->
-  (forallb (rec_ok false) rs = true ->
+  (forallb (rec_ok (g_csv_se gen_cfg)) rs = true ->
      resolve_term gen_cfg (o_term o) = CRLF \/ resolve_term gen_cfg (o_term o) = [LF] ->
      exists b, csv_out gen_cfg o rs = Some b)
   /\ (forallb (rec_ok true) rs = true -> exists b, line_out gen_cfg o rs = Some b)
@@ -177,12 +177,8 @@ Proof.
   - intros Hok. exact (line_total gen_cfg o rs Hok eq_refl).
   - intros r Hok. exact (text_repr_total gen_cfg r Hok eq_refl).
 Qed.
-(* ... FALSE for the CSV writer on a surrogate-escaped byte (strict encoder), which the other two accept *)
-Theorem C20_csv_total_refuted :
-  let rs := [rec_with_s [97; 56575] (tx "'a\udcff'")] in
-  forallb (rec_ok true) rs = true /\ csv_out gen_cfg no_opts rs = None
-  /\ line_out gen_cfg no_opts rs <> None /\ utf8 (g_text_se gen_cfg) (rec_repr gen_cfg (hd (rec_with_s [] []) rs)) <> None.
-Proof. repeat split; try reflexivity; discriminate. Qed.
+(* ... FALSE for the CSV writer on a surrogate-escaped byte while the file is opened with the strict encoder:
+   C20_csv_total_refuted in props/C20_findings.v *)
 (* ... and FALSE for all three on a surrogate that no handler encodes *)
 Theorem C20_total_lone_surrogate_refuted :
   let rs := [rec_with_s [55296] [39; 55296; 39]] in
@@ -234,7 +230,7 @@ Qed.
 (* non-vacuity: the hypotheses are satisfiable *)
 Example C20_hyp_satisfiable :
   let r := rec_with_s (tx "a,b") (tx "'a,b'") in
-  keys_agree gen_cfg no_opts [r; r] /\ forallb (rec_ok false) [r; r] = true
+  keys_agree gen_cfg no_opts [r; r] /\ forallb (rec_ok (g_csv_se gen_cfg)) [r; r] = true
   /\ names_lf_free (selected no_opts r) /\ delim_ok 44 = true
   /\ tpl_canon [TLit (tx "x="); TField (tx "s") None []; TField (tx "zz") (Some 114) (tx ">8")] = true.
 Proof.
